@@ -1,4 +1,5 @@
 //! Checks over the `sst` crate (C09–C12) and utilities shared with the store-level checks.
 pub mod c10;
+pub mod c10ext;
 pub mod c11;
 pub mod tables;
